@@ -53,8 +53,8 @@ def run(ctx):
         "Panic-site census of the three reph functions with specialised discharge rules (loop-counter, counted subtraction, suffix-bytes), "
         "value-identity dataflow between the removed and re-appended tail, ordered who-may-write on the buffer after the scan, and guard "
         "dominance for the gate.")
-    chk.not_decided = ["the position at which the reph is inserted for each text (right-to-left scan with four flags: value-level; the two misplacements the "
-                       "property text mentions are outside static reach)"]
+    chk.not_decided = ["the position the right-to-left scan (four flags) stops at for each text: value-level — *whether* the reph moves is decided (R7), how far it "
+                       "moves is not; the two misplacements the property text mentions are outside static reach"]
     mods = ctx.memo("modsets", lambda: ModSets(prog))
     fx = builders.fixed_ty(prog)
     roles = builders.method_roles(prog)
